@@ -57,6 +57,10 @@ type itr struct {
 	pureFn    map[string]string   // package-level functions translated elsewhere as pure Lean functions
 	reslice   map[string]bool     // functions in which s[:hi] may extend into the hidden capacity
 	curFn     string
+	curResT   []string
+	rangeOnce string
+	brkVar    string
+	worldExt  map[string]string // methods of the translated struct itself kept as state-threading externs
 	shadow    map[string]bool
 	joinIf    map[string]bool   // functions whose non-leaving if statements are joined
 	ptrOption bool              // *ID and *Mask are optional values (event code)
@@ -814,6 +818,10 @@ func (t *itr) call(x *ast.CallExpr, pre *[]string, wantValue bool) string {
 				continue // the zero value of an object outside the module (pagedSlice.Add(archetype{}))
 			}
 		}
+		if id, ok := a.(*ast.Ident); ok && id.Name == "nil" {
+			args = append(args, "default") // a nil slice / map / pointer argument
+			continue
+		}
 		args = append(args, t.expr(a, pre))
 	}
 	recvVal := t.expr(sel.X, pre)
@@ -864,6 +872,16 @@ func (t *itr) call(x *ast.CallExpr, pre *[]string, wantValue bool) string {
 	}
 	hasRes := fd.Type.Results != nil && len(fd.Type.Results.List) > 0
 	extArgs := ""
+	if ext, ok := t.worldExt[tn+"."+sel.Sel.Name]; ok {
+		// a method of the translated struct kept outside: it may change the struct and the hidden state
+		if !t.curEff {
+			return t.fail("state-threading method %s.%s called from a function that does not thread the hidden state", tn, sel.Sel.Name)
+		}
+		nr, rv := t.tmp("o"), t.tmp("r")
+		*pre = append(*pre, fmt.Sprintf("let (ext, %s, %s) := %s ext %s %s", nr, rv, ext, recvVal, strings.Join(args, " ")))
+		*pre = append(*pre, t.assignPath(sel.X, nr, nil)...)
+		return rv
+	}
 	calleeEff := t.usesEff[tn+"."+sel.Sel.Name]
 	if calleeEff && !t.curEff {
 		return t.fail("call of a function that threads the hidden state from one that does not: %s", tn+"."+sel.Sel.Name)
@@ -1081,11 +1099,15 @@ func (t *itr) joinable(x *ast.IfStmt) bool {
 	ok := true
 	ast.Inspect(x, func(n ast.Node) bool {
 		switch s := n.(type) {
-		case *ast.ReturnStmt, *ast.BranchStmt, *ast.ForStmt, *ast.RangeStmt:
+		case *ast.ReturnStmt:
 			ok = false
-		case *ast.CallExpr:
-			if id, isId := s.Fun.(*ast.Ident); isId && id.Name == "panic" {
+		case *ast.BranchStmt:
+			if !t.inLoopOf(x, s) {
 				ok = false
+			}
+		case *ast.CallExpr:
+			if id, isId := s.Fun.(*ast.Ident); isId && id.Name == "panic" && x.Else == nil {
+				ok = false // `if c { panic }` stays a guard in front of the rest; with an else branch a panic just ends the branch
 			}
 		case *ast.AssignStmt:
 			if s.Tok == token.DEFINE && len(s.Rhs) == 1 {
@@ -1097,6 +1119,30 @@ func (t *itr) joinable(x *ast.IfStmt) bool {
 		return true
 	})
 	return ok
+}
+
+// inLoopOf: is the branch statement inside a loop that is itself inside the if statement?
+func (t *itr) inLoopOf(x *ast.IfStmt, b *ast.BranchStmt) bool {
+	found := false
+	ast.Inspect(x, func(n ast.Node) bool {
+		var body *ast.BlockStmt
+		if rs, ok := n.(*ast.RangeStmt); ok {
+			body = rs.Body
+		}
+		if fs, ok := n.(*ast.ForStmt); ok {
+			body = fs.Body
+		}
+		if body != nil {
+			ast.Inspect(body, func(m ast.Node) bool {
+				if m == ast.Node(b) {
+					found = true
+				}
+				return true
+			})
+		}
+		return true
+	})
+	return found
 }
 
 // assignedOuter: plain variables the if statement assigns that were declared before it
@@ -1127,6 +1173,27 @@ func (t *itr) assignedOuter(x *ast.IfStmt) []string {
 					if vs, ok := sp.(*ast.ValueSpec); ok {
 						for _, n := range vs.Names {
 							declared[n.Name] = true
+						}
+					}
+				}
+			}
+		}
+		return true
+	})
+	// variables a loop inside the if statement threads (assigned there, possibly through a method)
+	ast.Inspect(x, func(n ast.Node) bool {
+		if es, ok := n.(*ast.ExprStmt); ok {
+			if ce, ok := es.X.(*ast.CallExpr); ok {
+				if sel, ok := ce.Fun.(*ast.SelectorExpr); ok && (sel.Sel.Name == "Set" || sel.Sel.Name == "Reset") {
+					if id, ok := sel.X.(*ast.Ident); ok && !declared[id.Name] && id.Name != t.recv {
+						if nm, ok := t.typeOf(id).(*types.Named); ok && nm.Obj().Name() == "Mask" {
+							dup := false
+							for _, o := range res {
+								dup = dup || o == id.Name
+							}
+							if !dup {
+								res = append(res, id.Name)
+							}
 						}
 					}
 				}
@@ -1240,8 +1307,15 @@ func (t *itr) stmts(list []ast.Stmt, ind string) []string {
 			val = t.expr(x.Results[0], &pre)
 		} else if len(x.Results) > 1 {
 			vs := []string{}
-			for _, r := range x.Results {
-				vs = append(vs, t.expr(r, &pre))
+			for i, r := range x.Results {
+				opt := i < len(t.curResT) && strings.HasPrefix(t.curResT[i], "Option")
+				if id, ok := r.(*ast.Ident); ok && id.Name == "nil" && opt {
+					vs = append(vs, "none")
+				} else if u, ok := r.(*ast.UnaryExpr); ok && u.Op == token.AND && opt {
+					vs = append(vs, "(some "+t.expr(u.X, &pre)+")")
+				} else {
+					vs = append(vs, t.expr(r, &pre))
+				}
 			}
 			val = "(" + strings.Join(vs, ", ") + ")"
 		}
@@ -1521,6 +1595,10 @@ func (t *itr) stmts(list []ast.Stmt, ind string) []string {
 		if x.Tok == token.CONTINUE && t.loopVar != "" {
 			return append(out, ind+"pure "+t.loopVar)
 		}
+		if x.Tok == token.BREAK && t.loopVar != "" && t.brkVar != "" {
+			out = append(out, fmt.Sprintf("%slet %s := true", ind, t.brkVar))
+			return append(out, ind+"pure "+t.loopVar)
+		}
 		return append(out, ind+t.fail("unsupported branch statement %s", x.Tok))
 	case *ast.RangeStmt:
 		// for i := range s { s[i] = c }   (every element set to one value)
@@ -1659,6 +1737,7 @@ func (t *itr) rangeLoop(x *ast.RangeStmt, rest []ast.Stmt, ind string) ([]string
 		declared[v.Name] = true
 	}
 	bad := false
+	hasBreak := false
 	ast.Inspect(x.Body, func(n ast.Node) bool {
 		switch s := n.(type) {
 		case *ast.AssignStmt:
@@ -1682,8 +1761,27 @@ func (t *itr) rangeLoop(x *ast.RangeStmt, rest []ast.Stmt, ind string) ([]string
 		case *ast.ReturnStmt:
 			bad = true
 		case *ast.BranchStmt:
-			if s.Tok != token.CONTINUE {
+			if s.Tok == token.BREAK {
+				hasBreak = true
+			} else if s.Tok != token.CONTINUE {
 				bad = true
+			}
+		case *ast.ExprStmt:
+			// v.Set(..) / v.Reset() on a Mask variable declared outside the loop assigns it
+			if ce, ok := s.X.(*ast.CallExpr); ok {
+				if sel, ok := ce.Fun.(*ast.SelectorExpr); ok && (sel.Sel.Name == "Set" || sel.Sel.Name == "Reset") {
+					if id, ok := sel.X.(*ast.Ident); ok && !declared[id.Name] && id.Name != t.recv {
+						if n, ok := t.typeOf(id).(*types.Named); ok && n.Obj().Name() == "Mask" {
+							seen := false
+							for _, o := range outer {
+								seen = seen || o == id.Name
+							}
+							if !seen {
+								outer = append(outer, id.Name)
+							}
+						}
+					}
+				}
 			}
 		case *ast.DeclStmt:
 			if gd, ok := s.Decl.(*ast.GenDecl); ok {
@@ -1703,12 +1801,40 @@ func (t *itr) rangeLoop(x *ast.RangeStmt, rest []ast.Stmt, ind string) ([]string
 	if bad {
 		return nil, false
 	}
+	{
+		ded := []string{}
+		for _, o := range outer {
+			dup := false
+			for _, e := range t.loopExtra {
+				dup = dup || e == o
+			}
+			if !dup {
+				ded = append(ded, o)
+			}
+		}
+		outer = ded
+	}
+	brk := ""
+	if hasBreak {
+		brk = t.tmp("brk")
+		outer = append(outer, brk)
+	}
 	savedExtra := t.loopExtra
 	t.loopExtra = append(append([]string{}, savedExtra...), outer...)
 	defer func() { t.loopExtra = savedExtra }()
 	out := []string{}
 	pre := []string{}
 	xs := t.expr(x.X, &pre)
+	if strings.Contains(xs, " ext ") || strings.Contains(xs, " ext)") {
+		// a slice read from the hidden state: Go evaluates the range expression once
+		v := t.tmp("xs")
+		pre = append(pre, fmt.Sprintf("let %s := %s", v, xs))
+		xs = v
+		t.rangeOnce = v
+	}
+	if brk != "" {
+		pre = append(pre, fmt.Sprintf("let %s := false", brk))
+	}
 	for _, l := range pre {
 		out = append(out, ind+l)
 	}
@@ -1719,14 +1845,28 @@ func (t *itr) rangeLoop(x *ast.RangeStmt, rest []ast.Stmt, ind string) ([]string
 	out = append(out, fmt.Sprintf("%slet %s ← (List.range %s).foldlM (fun %s %s => do", ind, st, n, st, iN))
 	bi := ind + "    "
 	out = append(out, fmt.Sprintf("%slet %s : Int := ((%s : Nat) : Int)", bi, keyName, iN))
-	if v, ok := x.Value.(*ast.Ident); ok && v.Name != "_" {
-		pre2 := []string{}
-		xs2 := t.expr(x.X, &pre2)
-		for _, l := range pre2 {
-			out = append(out, bi+l)
-		}
-		out = append(out, fmt.Sprintf("%slet %s ← GoSlice.get %s %s", bi, v.Name, xs2, iN))
+	bodyInd := bi
+	if brk != "" {
+		// after a `break` the remaining rounds do nothing
+		out = append(out, fmt.Sprintf("%sif %s then pure %s else", bi, brk, st))
+		bodyInd = bi + "  "
 	}
+	if v, ok := x.Value.(*ast.Ident); ok && v.Name != "_" {
+		if t.rangeOnce != "" {
+			out = append(out, fmt.Sprintf("%slet %s ← GoSlice.get %s %s", bodyInd, v.Name, t.rangeOnce, iN))
+		} else {
+			pre2 := []string{}
+			xs2 := t.expr(x.X, &pre2)
+			for _, l := range pre2 {
+				out = append(out, bodyInd+l)
+			}
+			out = append(out, fmt.Sprintf("%slet %s ← GoSlice.get %s %s", bodyInd, v.Name, xs2, iN))
+		}
+	}
+	t.rangeOnce = ""
+	savedBrk := t.brkVar
+	t.brkVar = brk
+	bi = bodyInd
 	savedLoopVar := t.loopVar
 	t.loopVar = st
 	savedAlias := t.alias
@@ -1737,6 +1877,7 @@ func (t *itr) rangeLoop(x *ast.RangeStmt, rest []ast.Stmt, ind string) ([]string
 	out = append(out, t.stmts(x.Body.List, bi)...)
 	t.alias = savedAlias
 	t.loopVar = savedLoopVar
+	t.brkVar = savedBrk
 	out = append(out, fmt.Sprintf("%s  ) %s", ind, st))
 	out = append(out, t.stmts(rest, ind)...)
 	return out, true
@@ -1769,10 +1910,17 @@ func (t *itr) countLoop(x *ast.ForStmt, rest []ast.Stmt, ind string) ([]string, 
 	} else if b.Kind() == types.Uint32 {
 		unsignedCtr = true
 	}
-	// the counter must not be used after the loop
+	// the counter must not be used after the loop (a later loop that starts by assigning it does not read it)
 	used := false
 	for _, r := range rest {
 		ast.Inspect(r, func(n ast.Node) bool {
+			if fs, ok := n.(*ast.ForStmt); ok {
+				if as, ok := fs.Init.(*ast.AssignStmt); ok && len(as.Lhs) == 1 && as.Tok == token.ASSIGN {
+					if id, ok := as.Lhs[0].(*ast.Ident); ok && id.Name == jv.Name {
+						return false
+					}
+				}
+			}
 			if id, ok := n.(*ast.Ident); ok && id.Name == jv.Name {
 				used = true
 			}
@@ -1806,8 +1954,22 @@ func (t *itr) countLoop(x *ast.ForStmt, rest []ast.Stmt, ind string) ([]string, 
 					}
 				}
 			}
-		case *ast.ReturnStmt, *ast.ForStmt, *ast.RangeStmt:
+		case *ast.ReturnStmt:
 			bad = true
+		case *ast.ForStmt, *ast.RangeStmt:
+			if !t.joinIf[t.curFn] {
+				bad = true // nested loops only in the functions translated last
+			}
+		case *ast.DeclStmt:
+			if gd, ok := s.Decl.(*ast.GenDecl); ok {
+				for _, sp := range gd.Specs {
+					if vs, ok := sp.(*ast.ValueSpec); ok {
+						for _, n := range vs.Names {
+							declared[n.Name] = true
+						}
+					}
+				}
+			}
 		case *ast.BranchStmt:
 			if s.Tok != token.CONTINUE {
 				bad = true
@@ -2005,6 +2167,7 @@ func (t *itr) emitFunc(sb *strings.Builder, goName string) {
 			}
 			rts = append(rts, t.leanType(t.typeOf(f.Type)))
 		}
+		t.curResT = rts
 		if len(rts) == 1 {
 			resT = rts[0]
 		} else if len(rts) > 1 {
@@ -2059,10 +2222,13 @@ func genPools(repo string, tiny bool) (string, []string) {
 	t.aliasCall = map[string]string{"World.Cache": "filterCache"}
 	t.usesEff = map[string]bool{"World.LoadEntities": true, "World.Reset": true, "World.createEntity": true, "World.createEntities": true,
 		"World.removeArchetype": true, "World.cleanupArchetype": true, "World.cleanupArchetypes": true, "World.RemoveEntity": true,
-		"World.createArchetype": true, "World.setRelation": true}
+		"World.createArchetype": true, "World.setRelation": true, "World.exchangeNoNotify": true, "World.removeEntities": true,
+		"World.newEntitiesNoNotify": true}
 	t.reslice = map[string]bool{"World.createEntities": true}
 	t.ptrOption = true
-	t.joinIf = map[string]bool{"World.RemoveEntity": true, "World.createEntities": true, "World.createArchetype": true, "World.setRelation": true}
+	t.joinIf = map[string]bool{"World.RemoveEntity": true, "World.createEntities": true, "World.createArchetype": true, "World.setRelation": true,
+		"World.exchangeNoNotify": true, "World.getExchangeMask": true, "World.removeEntities": true, "World.newEntitiesNoNotify": true}
+	t.worldExt = map[string]string{"World.findOrCreateArchetype": "findOrCreateF"}
 	t.tokens["archetypeData"] = true
 	for k, v := range map[string]string{"archetype.SetPointer": "archSetPointerF", "archNode.CreateArchetype": "nodeCreateArchetypeF",
 		"pagedSlice.Add": "pagedAddF", "archetype.Init": "archInitF", "archNode.SetArchetype": "nodeSetArchetypeF"} {
@@ -2072,13 +2238,14 @@ func genPools(repo string, tiny bool) (string, []string) {
 	t.structs["EntityEvent"] = true
 	t.effExt["archetype.Remove"] = "archRemoveF"
 	t.nilChecks = map[string]bool{}
-	for _, f := range []string{"World.createArchetype", "World.setRelation", "World.RemoveEntity", "World.removeArchetype", "World.cleanupArchetype", "World.cleanupArchetypes", "World.createEntity", "World.createEntities", "World.Has", "World.HasUnchecked", "World.Mask",
+	for _, f := range []string{"World.newEntitiesNoNotify", "World.removeEntities", "World.getExchangeMask", "World.exchangeNoNotify", "World.createArchetype", "World.setRelation", "World.RemoveEntity", "World.removeArchetype", "World.cleanupArchetype", "World.cleanupArchetypes", "World.createEntity", "World.createEntities", "World.Has", "World.HasUnchecked", "World.Mask",
 		"World.relationError", "World.checkRelation", "World.getRelation", "World.getRelationUnchecked"} {
 		t.nilChecks[f] = true
 	}
 	t.effExt["archetype.AllocN"] = "archAllocNF"
 	t.effExt["archetype.SetEntity"] = "archSetEntityF"
 	t.effExt["archNode.RemoveArchetype"] = "nodeRemoveArchetypeF"
+	t.effExt["archetype.Reset"] = "archResetF"
 	t.pureFn = map[string]string{"capacity": "ArcheGen.Arith.capacity", "subscription": mns + ".subscription", "subscribes": mns + ".subscribes",
 		"capacityNonZero": "ArcheGen.Arith.capacityNonZero"}
 	for _, n := range []string{"EntityDump", "entityIndex", "Config"} {
@@ -2093,7 +2260,7 @@ func genPools(repo string, tiny bool) (string, []string) {
 		"archNode.archetypeMap": "nodeArchMapF", "archNode.Archetypes": "nodeArchetypesF", "archetype.IsActive": "archActiveF", "pagedSlice.Get": "pagedGetF", "pagedSlice.Len": "pagedLenF",
 		"archetype.Len": "archLenF", "archetype.HasComponent": "archHasComponentF", "archetype.node": "archNodeF", "archNode.Relation": "nodeRelationF",
 		"archetype.HasRelationComponent": "archHasRelCompF", "archetype.RelationComponent": "archRelCompF", "archNode.Ids": "nodeIdsF", "archetype.GetEntity": "archGetEntityF",
-		"archNode.GetArchetype": "nodeGetArchetypeF", "archetype.Get": "archGetF"} {
+		"archNode.GetArchetype": "nodeGetArchetypeF", "archetype.Get": "archGetF", "archetype.Components": "archComponentsF"} {
 		t.tokExt[k] = v
 	}
 	for k, v := range map[string][2]string{
@@ -2107,6 +2274,9 @@ func genPools(repo string, tiny bool) (string, []string) {
 		"archAllocNF":          {"eff.archAllocN", "Ext → Option Nat → BitVec 32 → Ext × Unit"},
 		"archSetEntityF":       {"eff.archSetEntity", "Ext → Option Nat → BitVec 32 → Entity → Ext × Unit"},
 		"staleF":               {"stale.entityIndex", "Nat → entityIndex"},
+		"archResetF":           {"eff.archReset", "Ext → Option Nat → Ext × Unit"},
+		"findOrCreateF":        {"eff.findOrCreate", "Ext → World → Option Nat → GoSlice (BitVec 8) → GoSlice (BitVec 8) → Entity → Ext × World × Option Nat"},
+		"archComponentsF":      {"tok.archComponents", "Option Nat → GoSlice (BitVec 8)"},
 		"archSetPointerF":      {"eff.archSetPointer", "Ext → Option Nat → BitVec 32 → BitVec 8 → GoAny → Ext × Unit"},
 		"nodeCreateArchetypeF": {"eff.nodeCreateArchetype", "Ext → Option Nat → Int → Entity → Ext × Option Nat"},
 		"pagedAddF":            {"eff.pagedAdd", "Ext → Nat → Ext × Unit"},
@@ -2169,7 +2339,7 @@ func genPools(repo string, tiny bool) (string, []string) {
 		"World.createEntity", "World.createEntities", "World.Has", "World.HasUnchecked", "World.Mask",
 		"World.relationError", "World.checkRelation", "World.getRelation", "World.getRelationUnchecked",
 		"Entity.IsZero", "World.removeArchetype", "World.cleanupArchetype", "World.cleanupArchetypes", "World.RemoveEntity",
-		"World.createArchetype", "World.setRelation",
+		"World.createArchetype", "World.setRelation", "World.getExchangeMask", "World.exchangeNoNotify", "World.removeEntities", "World.newEntitiesNoNotify",
 	}
 	// which functions need the uninterpreted-function parameters (directly or through a callee)
 	calls := map[string][]string{}
